@@ -61,31 +61,7 @@ UNITS = [
       note="n_before, n_new symbolic <= 2^20 each, exact-size objects; MiniSat"),
 ]
 
-# NOT LISTED (undecided, kept as a record; written BEFORE the audit rework - the invariants name ghost variables of the
-# old sticky-flag contracts and would have to be restated over the hit flags of contracts/assumed_C17.h; --slice-formula, which cut the
-# bounded units 3-4x, was not yet tried on them): the loop-contract versions of the two gate units (same harnesses without
-# C17_NBOUND, n / n_before / n_new unbounded, exact-size objects).  goto-instrument accepts the contracts below, but cbmc
-# runs out of the 12 GB limit in the SAT back end (DFCC write-set maps: ~200 sets x 2^12 object slots = 32 M clauses before
-# any program logic, plus symbolic-offset reads of the callers' unbounded arrays); with --object-bits 10 (not selectable
-# per unit in the engine) the instance shrinks to 10 M clauses and still exhausts 12 GB after 13 min.
-LOOP_UNITS_UNDECIDED = """
-    U("C17.aggverify", ["C17"], "harness/C17/aggverify.c", "h_aggverify",
-      replace=HASH + ["secp256k1_ge_set_xo_var", "secp256k1_schnorrsig_challenge", "secp256k1_ecmult", "secp256k1_ecmult_gen", "secp256k1_gej_add_ge_var", "secp256k1_gej_add_var"],
-      assumed=["secp256k1_ge_set_xo_var", "secp256k1_ecmult", "secp256k1_ecmult_gen", "secp256k1_gej_add_ge_var", "secp256k1_gej_add_var"],
-      functions=["secp256k1_schnorrsig_aggverify", "secp256k1_xonly_pubkey_load", "secp256k1_fe_set_b32_limit", "secp256k1_fe_get_b32", "secp256k1_scalar_set_b32",
-                 "secp256k1_gej_set_ge", "secp256k1_gej_neg", "secp256k1_gej_is_infinity"],
-      loop_contracts={"secp256k1_schnorrsig_aggverify": {"for (i = 0; i < n; ++i)": {
-          "invariants": "i <= n && verif_c17_fin_n == i && verif_c17_xo_n == i && verif_c17_bad == 0 && verif_c17_rej == 0 && hash.bytes == 64 + 96 * (unsigned long)i && (verif_c17_gk < i ==> verif_c17_gk_ok != 0) && ((verif_c17_wpos >= 64 && verif_c17_wpos < 64 + 96 * (unsigned long)i) ==> verif_c17_whit != 0)",
-          "decreases": "n - i"}}},
-      unwind=66, timeout=1800, tier="thorough", min_obl=100, replay=False, solver="cadical", closed_by="loop contract over the n signatures (engine-supplied, no /repo edit)",
-      note="n unbounded (<= 2^40 only so that object sizes fit)"),
-    U("C17.inc_aggregate", ["C17"], "harness/C17/inc_aggregate.c", "h_inc_aggregate",
-      replace=HASH + ["secp256k1_scalar_mul"], assumed=["secp256k1_scalar_mul"],
-      functions=["secp256k1_schnorrsig_inc_aggregate", "secp256k1_schnorrsig_aggregate", "secp256k1_xonly_pubkey_serialize", "secp256k1_scalar_set_b32", "secp256k1_scalar_add", "secp256k1_scalar_get_b32"],
-      loop_contracts={"secp256k1_schnorrsig_inc_aggregate": {
-          "for (i = 0; i < n_before; ++i)": {"invariants": "i <= n_before && hash.bytes == 64 + 96 * (unsigned long)i && verif_c17_bad == 0 && ((verif_c17_wpos >= 64 && verif_c17_wpos < 64 + 96 * (unsigned long)i) ==> verif_c17_whit != 0)", "decreases": "n_before - i"},
-          7: {"invariants": "n_before <= i && i <= n && hash.bytes == 64 + 96 * (unsigned long)i && verif_c17_fin_n == i - n_before && verif_c17_bad == 0 && ((verif_c17_wpos >= 64 && verif_c17_wpos < 64 + 96 * (unsigned long)i) ==> verif_c17_whit != 0)", "decreases": "n - i"},
-          8: {"invariants": "n_before <= i && i <= n && (verif_c17_gb < 32 * i ==> aggsig[verif_c17_gb] == verif_c17_gb_exp)", "decreases": "n - i"}}},
-      unwind=66, timeout=1800, tier="thorough", min_obl=100, replay=False, solver="cadical", closed_by="loop contracts on the three loops (engine-supplied, no /repo edit); loops 7/8 = the two 'for (i = n_before; i < n; ++i)' loops in source order",
-      note="n_before, n_new unbounded (<= 2^40 each only so that object sizes fit)"),
-"""
+# History: the first loop-contract attempt (sticky order flags, CaDiCaL, --object-bits 12, no slicing) ran out of memory; what closed it:
+# value-keyed hit flags with "watched index < i => hits set" invariants, explicit loop assigns clauses naming the ghost variables,
+# expression-only helper functions inside contract clauses, --slice-formula, --object-bits 10 and MiniSat (CaDiCaL exhausts 33 GB on
+# the same instance that MiniSat solves in 12 s / 1 GB).
